@@ -269,6 +269,22 @@ func overlappingAppends(run *vk.Run, scratch string) {
 					}
 				}(g)
 			}
+			// next to them a caller whose context has already ended (and, on the SQLite kinds, one that
+			// hands in an event without a payload): whatever the store answers them, it has nothing to
+			// do with the appends of the others
+			wg.Add(1)
+			go func() {
+				defer wg.Done()
+				dead, cancel := context.WithCancel(ctx)
+				cancel()
+				<-start
+				for k := 0; k < per; k++ {
+					st.Store.Append(dead, &ebu.Event{Type: "c10.overlap", Data: json.RawMessage(`{"g":-1}`), Timestamp: time.Unix(1, 0)})
+					if strings.HasPrefix(kind, "sqlite") && k%5 == 0 {
+						st.Store.Append(ctx, &ebu.Event{Type: "c10.overlap", Data: nil, Timestamp: time.Unix(1, 0)})
+					}
+				}
+			}()
 			close(start)
 			wg.Wait()
 			evs, _, rerr := st.Store.Read(ctx, ebu.OffsetOldest, 0)
@@ -298,8 +314,14 @@ func overlappingAppends(run *vk.Run, scratch string) {
 					}
 				}
 			}
-			if bad == "" && (rerr != nil || len(evs) != G*per) {
-				bad = fmt.Sprintf("the log holds %d events after %d appends (err %v)", len(evs), G*per, rerr)
+			mine := 0
+			for _, e := range evs {
+				if !strings.Contains(string(e.Data), `"g":-1`) && len(e.Data) > 0 && string(e.Data) != "null" {
+					mine++
+				}
+			}
+			if bad == "" && (rerr != nil || mine != G*per) {
+				bad = fmt.Sprintf("the log holds %d of the %d events whose appends were acknowledged (err %v)", mine, G*per, rerr)
 			}
 			run.Case(fmt.Sprintf("overlapping-appends|%s|%d", kind, round), true)
 			if bad != "" {
